@@ -30,7 +30,10 @@ int main(int argc, char **argv){
   if (grid.isGlobal() || grid.isSequence()){
     std::vector<int> space = grid.getGlobalPolynomialSpace(true); int M = (int) space.size() / d; nfun = M;
     for (int m=0;m<M;m++) coef.push_back(fpsym_symbolic(0.5 - 0.04 * m, 100 + m, -1.0, 1.0));
-    for (int m=0;m<M;m++){ double b = 1.0; for (int j=0;j<d;j++) b *= std::pow(std::max(std::fabs(domLo(g, j)), std::fabs(domHi(g, j))), space[(size_t) m * d + j]); scale += b; }
+    // tolerance scale: magnitude of the monomials over the evaluation box AND over the nodes (rules on unbounded domains have far-out nodes)
+    for (int m=0;m<M;m++){ double b = 1.0; for (int j=0;j<d;j++) b *= std::pow(std::max(std::fabs(domLo(g, j)), std::fabs(domHi(g, j))), space[(size_t) m * d + j]);
+      for (int i=0;i<n;i++){ double t = 1.0; for (int j=0;j<d;j++) t *= std::pow(std::fabs(pts[(size_t) i * d + j]), space[(size_t) m * d + j]); b = std::max(b, t); }
+      scale += b; }
     p = [=](const std::vector<double> &z)->double{ double s = 0; for (int m=0;m<M;m++){ double t = coef[m]; for (int j=0;j<d;j++) t *= std::pow(z[j], space[(size_t) m * d + j]); s += t; } return s; };
   } else if (grid.isFourier()){
     const int *idx = grid.getPointsIndexes(); nfun = 2 * n; std::vector<int> ex((size_t) n * d);
